@@ -124,7 +124,7 @@ def _check_base(ck: Checker, rule: str = "C07.check") -> None:
                "a mismatching object can be reported as valid: the mismatch edge reaches a normal return",
                witness=g.fmt_path(g.path_to(r2, g.exit)) if g.exit in r2 else None, construct=f"{t.text()} / mismatch raises")
     raised = [n for n in g.nodes.values() if n.id in r2 and n.kind == "stmt" and isinstance(n.ast, ast.Raise) and n.ast.exc is not None]
-    ck.require(any("ObjectFormatError" in norm(n.ast.exc) for n in raised), rule, fn, t,
+    ck.require(any("ObjectFormatError" in norm(a) for n in raised for a in value_alts(g, n, n.ast.exc)), rule, fn, t,
                "mismatch raises ObjectFormatError", "mismatch does not raise ObjectFormatError (callers swallow exactly that type)", construct=f"{t.text()} / exception type")
     # match: protect precedes return; intact object is never deleted
     prot = {n.id for n in g.nodes.values() for c in calls_at(n) if is_method_call(c, "protect") and norm(c.func.value) == "self"}
@@ -217,8 +217,8 @@ def _check_local(ck: Checker, rule: str = "C07.localtrust") -> None:
     # is_protected agrees
     ip = cls.methods.get("is_protected")
     if ip is not None:
-        txt = " ".join(norm(r.value) for r in walk_own(ip.node) if isinstance(r, ast.Return) and r.value is not None)
-        ck.require("== self.CACHE_MODE" in txt or "self.CACHE_MODE ==" in txt, rule, ip, ip.node,
+        eqs = [x for x in walk_own(ip.node) if isinstance(x, ast.Compare) and len(x.ops) == 1 and isinstance(x.ops[0], ast.Eq) and any(norm(s_).endswith("CACHE_MODE") for s_ in (x.left, x.comparators[0]))]
+        ck.require(bool(eqs), rule, ip, ip.node,
                    "is_protected compares with the same constant by equality", "is_protected no longer tests equality with CACHE_MODE")
     pr = cls.methods.get("protect")
     if pr is not None:
